@@ -9,6 +9,7 @@ factors, consistency of base units — evaluated on the REAL parse result; bitwi
 """
 import itertools, struct
 from fractions import Fraction
+import common
 from common import frac, rstr, rparse, close
 from props.c06 import PREFIX, NA, SPACE, TIME, QTY, VOLUME, MOLAR, si_space, si_time, si_qty, si_factor
 
@@ -175,7 +176,7 @@ def check_grammar_case(ctx, factors, uspell, got, text):
     okb = all(gsys[k] == bases[KINDS[k]] for k in range(3) if gdim[k] != 0 and KINDS[k] in bases)
     if tuple(gdim) != dim or gsi != si or not okb:
         key = "grammar-meaning:%s" % ("dim" if tuple(gdim) != dim else "si")
-        ctx.violation(key, "%r read as %s %s, its symbols define dimension %s and SI scale %s" % (text, gsys, gdim, dim, float(si)),
+        ctx.violation(key, "%r read as %s %s, its symbols define dimension %s and SI scale %s" % (text, gsys, gdim, dim, common.fstr(si)),
                       case, impl=got, expected={"dim": dim, "si": rstr(si)})
 
 
